@@ -305,4 +305,28 @@ PROPS = {
                  "never touched again; finishing happens exactly in the epoch with filled+1 = numEpochs and filled grows by one iff a lock qualifies (PARTIAL: "
                  "finished => filled = numEpochs is refuted by a witness); failing operations are no-ops. Model tied to the real keepers by differential run.",
  },
+ "C04": {
+  "modules": ["OsmoVerif.Props.C04"],
+  "min_theorems": 35,
+  "fingerprints": ["GammMath.*", "Osmomath.Pow", "Osmomath.PowApprox", "Osmomath.AbsDifferenceWithSign", "Osmomath.BinarySearch*", "Osmomath.ErrTolerance_*"],
+  "engines": [{"name": "gammmath", "kind": "pure", "n": {"quick": 6000, "thorough": 150000}, "shards": {"quick": 4, "thorough": 16}}],
+  "rule": "in-memory balancer and stableswap pools (2-8 assets; reserves 1..10^30 balanced / strongly unbalanced / tiny; user weights 1..2^20-1, "
+          "ratios up to 1:10^6; scaling factors 1..10^9 with reserves that are not multiples of them; spread and exit fees 0, a few ulps, 0.001..0.99); "
+          "trade sizes from 1 unit over 1e-6, <1%, <30%, 30-50%, exactly 50%, 50-99%, reserve-1, up to 100x the reserve (balancer has no MaxInRatio) "
+          "and the stableswap solver limit (input >= reserve); single-asset and all-asset joins, proportional exits, single-asset share formulas, raw "
+          "kernels (solveConstantFunctionInvariant, cfmm/targetK/iterK, the solver with its post-condition, DivIntByU64ToBigDec), degenerate pools "
+          "(zero reserves, zero scaling factor, shares >= total) and 3-7-op sequences on one pool (random, and exit/re-join round trips) tracking an actor; "
+          "every op line carries the whole pool and is replayed by the Lean model; non-trivial = the real call succeeded; distinct = distinct op lines",
+  "trusted_base": ["700-bit big.Float references (harness/cmd/pure/bigfloat.go) for the weighted product and the exact constant-weighted-product formula",
+                   "osmomath arithmetic / Pow / binary searches as modelled and proved in C12/C13",
+                   "sdk.Coins invariants (sorted, unique, positive) of every coins argument and pool assets sorted by denom (the constructors' invariants) are preconditions of the model"],
+  "assumptions": ["PARTIAL: the real-valued clauses (stableswap invariant non-decreasing on the integer post-swap reserves; weighted product of reserves per share and "
+                  "swap/join/exit results within the documented power precision |Pow(b,e)-b^e| <= 1e-8(1+b^e) (+1e-10(1+b^e) for the Dec roundings); no profitable "
+                  "sequence at the pool's INITIAL spot prices) are NOT theorems: decided by the engine's oracle (exact rationals / 700-bit floats) on the explored inputs",
+                  "proved for all inputs: proportional join and exit bounds, solver post-condition (RoundUp side, 1e-12, non-empty bounds, output below reserve), "
+                  "final Int roundings given the Pow value, exactness and place of the spread factor, domain guards",
+                  "this tree declares no MaxInRatio/MaxOutRatio (translator fact Gen.GammMath.MaxRatioGuardDeclared = false): Pow bases below 0.5 are reachable through balancer"],
+  "explanation": "theorems over the bit-exact model for every discrete clause; model tied to the real pool-model packages by a differential run of stateless op lines "
+                 "(calc and mutating variants, post-state included); the oracle evaluates the continuum clauses with tolerances derived from powPrecision",
+ },
 }
